@@ -5,6 +5,7 @@ import (
 	"bytes"
 	"errors"
 	"fmt"
+	"icecheck/iceref"
 	"io"
 	"math"
 	"os"
@@ -641,6 +642,19 @@ func legC14(e *Engine) []Violation {
 			vs = append(vs, Violation{Prop: "C14", CaseID: cb.c.ID, Kind: "fault", Detail: "cold build failed: " + err.Error()})
 			continue
 		}
+		// process-wide state outside the pooled builder (e.g. a codec set up by the first build of
+		// the process) has ONE history inside this process, so two builds here can never differ by
+		// it.  The frozen reference copy of the package has its own globals and its own history:
+		// the same batch must give the same bytes there (the format is pinned by C10).
+		if rs, _, err := iceref.VerifNew(toDocs(target), normFunc(cb.c.Norm), mode); err == nil {
+			if rb, _, err := persist(rs); err == nil && !bytes.Equal(rb, cold) {
+				sg := cb.addBuild(target, mode, "hook")
+				_ = sg
+				vs = append(vs, Violation{Prop: "C14", CaseID: cb.c.ID, Kind: "fault", Case: cb.c,
+					Detail: fmt.Sprintf("the bytes New produces for this batch (%d) differ from the bytes the frozen reference copy of the package produces for the same batch (%d): the output depends on process-wide state with a different history (or the format changed: see C10)", len(cold), len(rb))})
+				continue
+			}
+		}
 		emptyPool()
 		// history
 		hist := r.Range(1, 5)
@@ -862,6 +876,29 @@ func legC15(e *Engine) []Violation {
 				for _, t := range cb.u.terms {
 					_ = w.Exec(Query{"match", itoa(si), hx(f) + ":" + hx(t), hx(f) + ":6e6f2d737563682d7465726d", "6e6f6e65:" + hx(t)}, rcx)
 				}
+			}
+		}
+		// statistics are values handed to the caller: accumulating into them (the usual aggregation
+		// over segments) must not change what a segment reports
+		for si := range w.segs {
+			if !ok(w.segs[si]) {
+				continue
+			}
+			for _, f := range cb.u.fields {
+				guard(opTimeout, func() string {
+					acc, err := w.segs[si].seg.CollectionStats(string(f))
+					if err != nil {
+						return ""
+					}
+					for sj := range w.segs {
+						if ok(w.segs[sj]) {
+							if st, err := w.segs[sj].seg.CollectionStats(string(f)); err == nil {
+								acc.Merge(st)
+							}
+						}
+					}
+					return ""
+				})
 			}
 		}
 		img2, tr2 := snap()
@@ -1208,5 +1245,37 @@ func legC11(e *Engine) []Violation {
 		e.noteCase(c, true)
 	})
 	e.count("persist-after-failed-persist", int(attempts))
+	// a segment whose data section exceeds 1 MiB (incompressible stored values): byte count,
+	// CRC, footer and re-persist of the built segment and of its loaded copies
+	{
+		r := NewRng(e.seed, "C11-big", 0)
+		cb := newCaseBuilder(caseID("C11big", e.seed, 0), r)
+		cb.u.fields = [][]byte{[]byte("_id"), []byte("blob")}
+		docs := make([]Doc, 330)
+		for d := range docs {
+			id := []byte(fmt.Sprintf("d%d", d))
+			docs[d] = Doc{{Name: []byte("_id"), Length: 1, Terms: []TermOcc{{Term: id, Freq: 1}}},
+				{Name: []byte("blob"), Store: true, Value: randBytes(r, 4096)}}
+		}
+		sg := cb.addBuild(docs, 1024, "hook")
+		lm := cb.addLoad(sg, "mem")
+		lf := cb.addLoad(sg, "file")
+		for _, x := range []int{sg, lm, lf} {
+			cb.q("crc", itoa(x))
+			cb.q("repersist", itoa(x))
+		}
+		w := BuildWorld(cb.c)
+		for i, q := range cb.c.Queries {
+			a := w.Exec(q, nil)
+			if !strings.HasPrefix(a, "ok") && a != "same" {
+				vs = append(vs, Violation{Prop: "C11", CaseID: cb.c.ID, Kind: "fault",
+					Case:   &Case{ID: cb.c.ID, Queries: []Query{{"(330 documents, each with a 4096-byte incompressible stored value: more than 1 MiB of data; regenerate with the seed)"}, q}},
+					Detail: fmt.Sprintf("segment of more than 1 MiB, query %d `%s`: %s", i, strings.Join(q, " "), a)})
+				break
+			}
+		}
+		w.Close()
+		e.count("segments-above-1MiB", 1)
+	}
 	return vs
 }
